@@ -19,6 +19,7 @@ pub fn spec() -> PropSpec {
         assumptions: &["-l installs a process-global logger and is exercised through the CLI only", "histories that take more than 0.9 s of real time are discarded (whole-second pairing window)"],
         workers: 16,
         also_nochk: false,
+        fuzz_target: None,
         quick_budget_s: 900,
         thorough_budget_s: 3600,
         min_nontrivial_quick: 3_000,
